@@ -5,7 +5,7 @@ from vcommon import Ctx, coq_N, coq_bool
 
 REP = {"b": 1, "c": 2}
 POL = {"LEADER": "PLeader", "ALL": "PAll", "NONE": "PNone"}
-KIND = {"OK": 0, "TOO_LARGE": 1, "INCORRECT_OFFSET": 2}
+KIND = {"OK": 0, "TOO_LARGE": 1, "INCORRECT_OFFSET": 2, "ENCRYPTION": 3}
 
 
 def rep(name):
@@ -21,7 +21,7 @@ def c_obs(st):
 def c_step(st):
     k = st["op"]
     if k == "publish":
-        ms = "; ".join("mkMsg %s %s %s (%d)" % (coq_N(int(m["corr"][1:])), POL[m["policy"]], coq_bool(m["large"]), m["expected"]) for m in st["msgs"])
+        ms = "; ".join("mkMsgE %s %s %s (%d) %s" % (coq_N(int(m["corr"][1:])), POL[m["policy"]], coq_bool(m["large"]), m["expected"], coq_bool(bool(m.get("unsealable")))) for m in st["msgs"])
         x = "LPublish [%s]" % ms
     elif k == "follower":
         x = "LFollower %s (%d)" % (coq_N(rep(st["r"])), st["o"])
@@ -43,7 +43,7 @@ def c_case(c):
 
 def run(pid, tier, seed, replay):
     ctx = Ctx(pid, tier, seed)
-    ctx.trusted.append("modelled, not verified: NATS delivery, the commit queue implementation and Go scheduling between the message loop and the commit loop (the driver lets the partition settle after every step, so each step's effects are observed complete); followers are played by the driver through real ReplicationRequest messages, the follower side of replication is C02's; encryption failure nacks are covered at the codec level (C17), not here")
+    ctx.trusted.append("modelled, not verified: NATS delivery, the commit queue implementation and Go scheduling between the message loop and the commit loop (the driver lets the partition settle after every step, so each step's effects are observed complete); followers are played by the driver through real ReplicationRequest messages, the follower side of replication is C02's; the encryption handler of one stream in three is a stand-in whose Seal fails for marked values (the real handler's failures come from its key source, C17)")
     ctx.coq_cone("Properties/C04.v")
     env = {"VERIF_N": 7 if tier == "quick" else 60}
     lines = ctx.go_driver("server", ["server/srv_test.go", "server/partdrv_test.go", "server/c04_test.go"], "^TestVerifC04$", env=env, timeout=6000)
@@ -93,5 +93,5 @@ def run(pid, tier, seed, replay):
     return ctx.finish(
         coverage={"input_distribution": dist, "histories": len(cases), "steps": nsteps, "case_shards": len(jobs)},
         samples=[{"id": c["id"], "replicas": c["replicas"], "minisr": c["minisr"], "steps": c["steps"][:4]} for c in cases[:1]],
-        rule="per history a partition led by a real in-process server with 0-2 followers played by the driver (real replication requests), minimum ISR 1-3, replication factor 1-3, optional optimistic concurrency control, optional batching (groups of 2-5 messages reaching the loop as one batch): 8-23 steps of publishes with LEADER/ALL/NONE policy (some larger than the replication limit, some with right/wrong expected offsets), follower progress reports, ISR shrinks and expansions through the real metadata API, and changes of leader term (a phantom in-sync replica is elected through Raft, holds the real server's log up to a chosen point at or above the HW plus 0-2 messages of its own, the real server follows it -- cuts back, fetches -- and is elected again; one corpus history per server where a report from the earlier term would otherwise count); after every step newest offset, HW, ISR offsets and every ack received are compared with the model and checked by a direct oracle; non-trivial = at least two ack policies and (RF 1 or follower progress); distinct by configuration and step sequence",
+        rule="per history a partition led by a real in-process server with 0-2 followers played by the driver (real replication requests), minimum ISR 1-3, replication factor 1-3, optional optimistic concurrency control, optional batching (groups of 2-5 messages reaching the loop as one batch): 8-23 steps of publishes with LEADER/ALL/NONE policy (some larger than the replication limit, some with right/wrong expected offsets, on one stream in three some whose value the encryption handler refuses to seal), follower progress reports, ISR shrinks and expansions through the real metadata API, and changes of leader term (a phantom in-sync replica is elected through Raft, holds the real server's log up to a chosen point at or above the HW plus 0-2 messages of its own, the real server follows it -- cuts back, fetches -- and is elected again; one corpus history per server where a report from the earlier term would otherwise count); after every step newest offset, HW, ISR offsets and every ack received are compared with the model and checked by a direct oracle; non-trivial = at least two ack policies and (RF 1 or follower progress); distinct by configuration and step sequence",
         evaluations=len(cases), distinct_nontrivial=len(canon), traces=len(cases))
